@@ -517,12 +517,15 @@ class Emitter:
         fid = '%s::%s::%s' % (rel, norm(cont) if cont != '-' else '-', name)
         start_line = self.lineno()
         ctext = '\n'.join(contract).rstrip()
-        if negate and mode != 'decl':
-            # vacuity probe: an extra clause that must NOT be provable
+        if negate and mode == 'body':
+            # vacuity probe: an extra clause that must NOT be provable.  Each function gets its
+            # own uninterpreted proposition, so a caller cannot inherit it from a callee.
+            self.nprobe = getattr(self, 'nprobe', 0) + 1
+            probe = 'vac_probe(%d)' % self.nprobe
             if re.search(r'^\s*ensures\b', ctext, re.M):
-                ctext = ctext.rstrip().rstrip(',') + ',\n        false,'
+                ctext = ctext.rstrip().rstrip(',') + ',\n        %s,' % probe
             else:
-                ctext = ctext + '\n    ensures false,'
+                ctext = ctext + '\n    ensures %s,' % probe
         self.emit('//#fn id=%s tags=%s mode=%s src=%d-%d\n' % (fid, ','.join(tags), mode, line_of(src, it['start']), line_of(src, it['end'])))
         for a in attrs:
             self.emit(a + '\n')
